@@ -172,6 +172,8 @@ pub fn run(parts: &[String]) -> String {
             "const" => return crate::cmds::constant(arg),
             #[cfg(feature = "ark")]
             "bls" => return crate::bls::run(arg),
+            #[cfg(feature = "ark")]
+            "r1cs" => return crate::r1cs::run(arg),
             _ => { if let Some(s) = crate::cmds::field_generic(op, arg, &mut st) { return s; } }
         }
     }
